@@ -76,6 +76,23 @@ func ruleC19(w *World) {
 			add(w.method(t, "Verify"), "ECDSA Verify")
 		}
 	}
+	// every other exported function of the module that is handed a caller's hasher (SPoCK proving / verification
+	// against data, …) is such an operation too: the hasher, keys and data it receives are only read
+	have := map[*ssa.Function]bool{}
+	for _, o := range ops {
+		have[o.fn] = true
+	}
+	for _, fn := range w.srcFuncs(rootPath) {
+		if have[fn] || isTestFile(w, fn.Pos()) || fn.Object() == nil || !fn.Object().Exported() || fn.Signature.Recv() != nil {
+			continue
+		}
+		for _, p := range fn.Params {
+			if strings.HasSuffix(typeShort(p.Type()), "hash.Hasher") || typeShort(p.Type()) == "Hasher" {
+				add(fn, fn.Name())
+				break
+			}
+		}
+	}
 	for _, o := range ops {
 		effs := ea.sharedWrites(o.fn, 0, map[*ssa.Function]bool{})
 		n := 0
@@ -166,7 +183,9 @@ func ruleC19(w *World) {
 	}
 	// R2: on hashers passed to the BLS operations only Size and ComputeHash are invoked (transitively through the guard)
 	for _, o := range ops {
-		if o.hasherParam < 0 || !strings.Contains(o.name, "BLS") && !strings.Contains(o.name, "Batch") {
+		// (ECDSA operations use per-goroutine hashers, per the property; every BLS-based operation — signatures,
+		// aggregates, batches, PoP, SPoCK — may share one KMAC hasher)
+		if o.hasherParam < 0 || strings.HasPrefix(o.name, "ECDSA") {
 			continue
 		}
 		w.hasherUses(o.fn, o.fn.Params[o.hasherParam], "C19.R2", 0)
@@ -371,6 +390,39 @@ func (w *World) ruleKeyImmutability(rule string) {
 			if onlyGlobals && (fn.Name() == "init" || allCallersInit(w, fn)) {
 				w.ok(rule, key, ins.Pos(), "package-level key object written during package initialisation only ("+how+")")
 				return
+			}
+			// an unexported setter used while the object is under construction: every root is a parameter of this function
+			// and every call site hands an object built in the caller's own activation for it
+			if fn.Object() != nil && !fn.Object().Exported() {
+				allParam, cnt := true, 0
+				for _, r := range ea.roots(obj, fn, 0) {
+					if r.kind == rkFresh {
+						continue
+					}
+					if r.kind != rkParam || r.param < 0 {
+						allParam = false
+						break
+					}
+					for _, cs := range w.callersOfCached(fn) {
+						if isTestFile(w, cs.Pos()) {
+							continue
+						}
+						cnt++
+						if r.param >= len(cs.Common().Args) {
+							allParam = false
+							continue
+						}
+						for _, ar := range ea.roots(cs.Common().Args[r.param], cs.Parent(), 0) {
+							if ar.kind != rkFresh {
+								allParam = false
+							}
+						}
+					}
+				}
+				if allParam && cnt > 0 {
+					w.ok(rule, key, ins.Pos(), "setter applied only to objects under construction at its call sites ("+how+")")
+					return
+				}
 			}
 			if isCache(fld) && val != nil {
 				// the cache of the derived public key: filled with an object built in this activation
